@@ -14,6 +14,10 @@ interpreted in two ways:
   the trace, and the observed result must be possible in the abstract file system).
 
 Descriptors are handles numbered in order of creation (the trace is canonicalised the same way).
+
+The one call that starts another program, `fork argv stdin`, carries what the child does before it is that program:
+`dup2(stdin, 0)` of THAT handle, `execvp(argv[0], argv)` of THAT vector (util.c `exec()`); the shim observes both in the
+real child, `conform` compares them (package p14).
 -/
 
 namespace Mdsort.Model
@@ -50,7 +54,7 @@ inductive Call where
   | mkdtemp (template : Bytes)
   | mkdir (path : Bytes)
   | rmdir (path : Bytes)
-  | fork
+  | fork (argv : List Bytes) (stdin : Handle)      -- fork(); in the child: dup2(stdin, 0); execvp(argv[0], argv)
   | waitpid
 deriving Repr, DecidableEq
 
@@ -60,6 +64,17 @@ def Call.mutating : Call → Bool
   | .mkostemp .. | .mkdtemp .. | .mkdir .. | .rmdir .. => true
   | _ => false
 
+/-- Is this call a `fork` (whatever the child is going to run)? -/
+def Call.isFork : Call → Bool
+  | .fork .. => true
+  | _ => false
+
+theorem Call.not_mutating_of_isFork {c : Call} (h : c.isFork = true) : c.mutating = false := by
+  cases c <;> first | rfl | cases h
+
+theorem Call.isFork_iff {c : Call} : c.isFork = true ↔ ∃ argv s, c = .fork argv s := by
+  cases c <;> simp [Call.isFork]
+
 inductive Res where
   | ok (v : Nat)               -- 0, a byte count, a new handle, a wait status
   | name (n : Bytes)           -- readdir entry, mkdtemp/mkostemp created path
@@ -67,7 +82,9 @@ inductive Res where
   | err (errno : String)
 deriving Repr, DecidableEq
 
-/-- Same call, disregarding the payload of write/fprintf (a trace only shows the byte count). -/
+/-- Same call, disregarding the payload of write/fprintf (a trace only shows the byte count).  Every other
+constructor is compared with all its arguments: for `fork` that is the argument vector the child hands to `execvp`
+and the handle it makes its standard input. -/
 def Call.same : Call → Call → Bool
   | .write a _, .write b _ => a == b
   | .fprintf a _, .fprintf b _ => a == b
@@ -267,7 +284,7 @@ def applyOk (w : World) (c : Call) (r : Res) : Option World :=
     match w.dir p with
     | some [] => some { w with dirs := w.dirs.filter (·.1 != p) }
     | _ => none
-  | .fork, .ok _ => some w
+  | .fork _ _, .ok _ => some w
   | .waitpid, .ok _ => some w
   | _, .err _ => some w
   | _, _ => none
